@@ -8,6 +8,9 @@ s = open(p).read()
 if s.count(old) != 1:
     print("pattern occurs %d times" % s.count(old)); sys.exit(3)
 open(p, "w").write(s.replace(old, new))
+import shutil, tempfile
+_ev = tempfile.mkdtemp(prefix="verif-ev-")
+shutil.copytree("/verif/evidence", _ev + "/evidence")
 try:
     for pr in props:
         r = subprocess.run(["./check", pr], cwd="/verif", capture_output=True, text=True)
@@ -15,3 +18,5 @@ try:
         print(pr, "rc=%d" % r.returncode, " | ".join(lines)[:600])
 finally:
     open(p, "w").write(s)
+    # evidence files written while /repo was mutated are not evidence: put the previous ones back
+    shutil.rmtree("/verif/evidence"); shutil.copytree(_ev + "/evidence", "/verif/evidence"); shutil.rmtree(_ev)
